@@ -534,7 +534,9 @@ class WfCtx(object):
         for s in _body(fn):
             src = _src(s)
             if isinstance(s, ast.If) and _src(s.test) == 'states.is_paused_or_completed(self.wf_ex.state)':
-                if len(s.body) != 1 or not isinstance(s.body[0], ast.Return) or s.orelse or seen_expire:
+                # (before expire_all: on the copy loaded at the start; after it - repo patch 25 - on the
+                #  re-read copy: the `read` emitted for expire_all precedes it)
+                if len(s.body) != 1 or not isinstance(s.body[0], ast.Return) or s.orelse:
                     raise Refuse('check_and_complete: unexpected guard')
                 out.append(('retIf', ('isIn', ('obj', WF_FIELDS['state']),
                                       self.tabs['paused'] + self.tabs['completed'])))
@@ -757,7 +759,7 @@ ACT_SRC = 'mistral/engine/actions.py'
 ACTH_SRC = 'mistral/engine/action_handler.py'
 ENG_SRC = 'mistral/engine/default_engine.py'
 TAG_TASK = 2
-A_STATE, A_OUT = 0, 2      # script variables: the state the result maps to, the converted output
+A_STATE, A_PREV, A_OUT = 0, 1, 2   # script variables: the state the result maps to, prev_state, the converted output
 
 
 def action_complete(repo):
@@ -776,13 +778,33 @@ def action_complete(repo):
     chain = ('if result.is_success():\n    self.action_ex.state = states.SUCCESS\n'
              'elif result.is_cancel():\n    self.action_ex.state = states.CANCELLED\n'
              'else:\n    self.action_ex.state = states.ERROR')
-    want = ['assert self.action_ex', want_guard, 'prev_state = self.action_ex.state', chain,
-            'converted_result = self.action_desc.post_process_result(result)',
+    tail = ['converted_result = self.action_desc.post_process_result(result)',
             'self.action_ex.output = converted_result.to_dict()', 'self.action_ex.accepted = True',
             'self._log_result(prev_state, result)']
-    if srcs != want:
+    old_shape = ['assert self.action_ex', want_guard, 'prev_state = self.action_ex.state', chain] + tail
+    chain2 = ('if result.is_success():\n    state = states.SUCCESS\n'
+              'elif result.is_cancel():\n    state = states.CANCELLED\n'
+              'else:\n    state = states.ERROR')
+    cas_call = ('action_ex = db_api.update_action_execution_state(id=self.action_ex.id, cur_state=prev_state, '
+                'state=state)')
+    lost = ("if action_ex is None:\n    raise ValueError("
+            "'Action {} is already completed'.format(self.action_ex.id))")
+    new_shape = ['assert self.action_ex', want_guard, 'prev_state = self.action_ex.state', chain2, cas_call, lost,
+                 'self.action_ex = action_ex'] + tail
+    if srcs == old_shape:
+        with_cas = False
+    elif srcs == new_shape:
+        with_cas = True
+        api = _parse(repo, API_SRC)
+        check_update_on_match(api)
+        fn2 = _func(api, 'update_action_execution_state')
+        if [a.arg for a in fn2.args.args] != ['id', 'cur_state', 'state'] or [_src(x) for x in _body(fn2)] != [
+                'specimen = models.ActionExecution(id=id, state=cur_state)',
+                "return update_on_match(id, specimen, values={'state': state}, attempts=1)"]:
+            raise Refuse('db update_action_execution_state: unexpected shape')
+    else:
         raise Refuse('RegularAction.complete changed: %r' % [x[:60] for x in srcs])
-    for rel, names in ((ACT_SRC, None), (ACTH_SRC, None)):
+    for rel in (ACT_SRC, ACTH_SRC):
         with open(os.path.join(repo, rel)) as f:
             txt = f.read()
         for dev in ('acquire_lock', 'named_lock', 'update_on_match'):
@@ -811,12 +833,210 @@ def action_complete(repo):
                     kinds[st_.targets[0].id] = col.startswith('st.Json')
     if kinds != {'state': False, 'output': True, 'accepted': False}:
         raise Refuse('ActionExecution column kinds: %r' % kinds)
+    if with_cas:
+        # repo patch 26: the state is set by a compare-and-swap on the state read; no match -> raise
+        return [('read',),
+                ('raiseIf', ('isIn', ('obj', WF_FIELDS['state']), tabs['completed'])),
+                ('setVar', A_PREV, ('obj', WF_FIELDS['state'])),
+                ('cas', 0, [(WF_FIELDS['state'], ('var', A_PREV))], [(WF_FIELDS['state'], ('var', A_STATE))]),
+                ('raiseIf', ('notFlag', 0)),
+                ('assign', WF_FIELDS['output'], ('var', A_OUT), True),
+                ('assign', WF_FIELDS['accepted'], ('const', True), False),
+                ('emit', ('tt',), TAG_TASK)]
     return [('read',),
             ('raiseIf', ('isIn', ('obj', WF_FIELDS['state']), tabs['completed'])),
             ('assign', WF_FIELDS['state'], ('var', A_STATE), False),
             ('assign', WF_FIELDS['output'], ('var', A_OUT), True),
             ('assign', WF_FIELDS['accepted'], ('const', True), False),
             ('emit', ('tt',), TAG_TASK)]
+
+
+# ------------------------------------------------------------------ Task.complete / Task.set_state
+TASK_SRC = 'mistral/engine/tasks.py'
+TASK_FIELDS = {'state': 0, 'state_info': 1, 'next_tasks': 2, 'processed': 3, 'has_next_tasks': 4,
+               'error_handled': 5}
+# script variables: 0 = the (completed) state the task is completed with, 1 = state_info, 2 = next_tasks computed
+# from the commands, 4 = has_next_tasks, 5 = error_handled, 6 = "the workflow is paused" (read from the workflow
+# row), 7 = cur_state local of set_state
+T_STATE, T_INFO, T_NEXT, T_HAS, T_ERRH, T_PAUSED, T_CUR = 0, 1, 2, 4, 5, 6, 7
+TAG_CHECK, TAG_DISPATCH = 3, 4
+
+
+def task_complete(repo):
+    """Task.complete(state, state_info) for a completed, non-skipped target state, with Task.set_state
+    inlined: is_completed guard on the loaded copy, compare-and-swap on the state read
+    (db_api.update_task_execution_state -> update_on_match), `False -> return`, then the ORM assignments
+    (state_info, next_tasks, has_next_tasks, error_handled, processed) and the two hand-offs (workflow
+    completion check, dispatch of the next commands) - reached only by the winner."""
+    tabs = states_tables(repo)
+    api = _parse(repo, API_SRC)
+    check_update_on_match(api)
+    fn2 = _func(api, 'update_task_execution_state')
+    if [a.arg for a in fn2.args.args] != ['id', 'cur_state', 'state'] or [_src(x) for x in _body(fn2)] != [
+            'specimen = models.TaskExecution(id=id, state=cur_state)',
+            "return update_on_match(id, specimen, values={'state': state}, attempts=1)"]:
+        raise Refuse('db update_task_execution_state: unexpected shape')
+    tk = _parse(repo, TASK_SRC)
+    # ---- set_state
+    fn = _func(tk, 'set_state', 'Task')
+    if [a.arg for a in fn.args.args] != ['self', 'state', 'state_info', 'processed', 'first_run']:
+        raise Refuse('Task.set_state: parameters changed')
+    b = _body(fn)
+    if len(b) != 4 or _src(b[0]) != 'assert self.task_ex' or _src(b[1]) != 'cur_state = self.task_ex.state' or \
+            not isinstance(b[2], ast.If) or _src(b[3]) != 'return True' or b[2].orelse or \
+            _src(b[2].test) != 'cur_state != state or self.task_ex.state_info != state_info':
+        raise Refuse('Task.set_state: unexpected outline')
+    inner = b[2].body
+    want_head = ['task_ex = db_api.update_task_execution_state(id=self.task_ex.id, cur_state=cur_state, state=state)',
+                 'if task_ex is None:\n    return False', 'self.task_ex = task_ex']
+    if [_src(x) for x in inner[:3]] != want_head:
+        raise Refuse('Task.set_state: the compare-and-swap block changed')
+    set_state = [('setVar', T_CUR, ('obj', TASK_FIELDS['state'])),
+                 ('cas', 0, [(TASK_FIELDS['state'], ('var', T_CUR))], [(TASK_FIELDS['state'], ('var', T_STATE))]),
+                 ('retIf', ('notFlag', 0))]
+    for st_ in inner[3:]:
+        src = _src(st_)
+        if isinstance(st_, ast.Assign) and _src(st_.targets[0]) == 'self.task_ex.state_info':
+            set_state.append(('assign', TASK_FIELDS['state_info'], ('var', T_INFO), False))
+            continue
+        if src == 'self.state_changed = True':
+            continue
+        if isinstance(st_, ast.If) and all(
+                isinstance(x, ast.Assign) and _src(x.targets[0]) in (
+                    'self.task_ex.started_at', 'self.task_ex.finished_at') for x in st_.body) and not st_.orelse:
+            continue          # timestamps: not part of the row abstraction
+        if isinstance(st_, ast.If) and _src(st_.test) == 'processed is not None':
+            continue          # Task.complete passes processed=None
+        if isinstance(st_, ast.If) and _src(st_.test) == 'first_run' and _is_pure(st_):
+            continue
+        if isinstance(st_, ast.Expr) and _is_pure(st_):
+            continue
+        raise Refuse('Task.set_state: statement not understood: %s' % src[:100])
+    # ---- complete
+    fn = _func(tk, 'complete', 'Task')
+    if [a.arg for a in fn.args.args] != ['self', 'state', 'state_info', 'skip']:
+        raise Refuse('Task.complete: parameters changed')
+    isc = _func(tk, 'is_completed', 'Task')
+    if [_src(x) for x in _body(isc)] != ['return self.task_ex and states.is_completed(self.task_ex.state)']:
+        raise Refuse('Task.is_completed changed')
+    out = [('read',)]
+    seen_cas = False
+    for st_ in _body(fn):
+        src = _src(st_)
+        if isinstance(st_, ast.Assert):
+            continue
+        if src == 'if self.is_completed() and (not states.is_skipped(state)):\n    return':
+            # (the script is for a non-skipped target state)
+            out.append(('retIf', ('isIn', ('obj', TASK_FIELDS['state']), tabs['completed'])))
+            continue
+        if src == 'if not self.set_state(state, state_info):\n    return':
+            if len(out) != 2:
+                raise Refuse('Task.complete: set_state is not directly behind the is_completed guard')
+            # cur_state != state holds: the guard left a not-completed state, the target is completed
+            out += set_state + [('retIf', ('notFlag', 0))]
+            seen_cas = True
+            continue
+        if not seen_cas:
+            raise Refuse('Task.complete: statement before set_state: %s' % src[:100])
+        if isinstance(st_, ast.Assign) and _src(st_.targets[0]) == 'self.task_ex.next_tasks':
+            out.append(('assign', TASK_FIELDS['next_tasks'], ('var', T_NEXT), True))
+            continue
+        if isinstance(st_, ast.Assign) and _src(st_.targets[0]) == 'self.task_ex.has_next_tasks':
+            out.append(('assign', TASK_FIELDS['has_next_tasks'], ('var', T_HAS), False))
+            continue
+        if isinstance(st_, ast.If) and _src(st_.test) == 'self.task_ex.state == states.ERROR' and \
+                [_src(x.targets[0]) for x in st_.body] == ['self.task_ex.error_handled'] and not st_.orelse:
+            out.append(('assign', TASK_FIELDS['error_handled'], ('var', T_ERRH), False))
+            continue
+        if src == 'if states.is_paused(self.wf_ex.state):\n    return':
+            out.append(('retIf', ('truthy', ('var', T_PAUSED))))
+            continue
+        if src == 'if self.task_ex.state == states.RUNNING_DELAYED:\n    return':
+            continue          # policies only; the state just set is a completed one
+        if src == 'self.task_ex.processed = True':
+            out.append(('assign', TASK_FIELDS['processed'], ('const', True), False))
+            continue
+        if src == 'self.register_workflow_completion_check()':
+            out.append(('emit', ('tt',), TAG_CHECK))
+            continue
+        if src == 'dispatcher.dispatch_workflow_commands(self.wf_ex, cmds)':
+            out.append(('emit', ('tt',), TAG_DISPATCH))
+            continue
+        if src in ('self._update_inbound_context()', 'data_flow.publish_variables(self.task_ex, self.task_spec)') or \
+                src.startswith(('if not self.task_spec.get_keep_result():', 'if not states.is_skipped(state):',
+                                'wf_ctrl = wf_base.get_controller(', 'cmds = wf_ctrl.continue_workflow(',
+                                'for c in cmds:')):
+            continue          # other columns / other rows (published, in_context, action outputs)
+        raise Refuse('Task.complete: statement not understood: %s' % src[:100])
+    if not seen_cas or ('emit', ('tt',), TAG_DISPATCH) not in out:
+        raise Refuse('Task.complete: no set_state / dispatch found')
+    # RegularTask.on_action_complete hands every action / child-workflow result to complete()
+    rt = _func(tk, 'on_action_complete', 'RegularTask')
+    if _src(_body(rt)[-1]) != 'self.complete(state, state_info)':
+        raise Refuse('RegularTask.on_action_complete no longer ends in self.complete(state, state_info)')
+    return out
+
+
+# ------------------------------------------------------------------ scheduler capture
+SCHED_SRC = 'mistral/scheduler/default_scheduler.py'
+J_NOW = 0       # script variable: now_sec
+
+
+def capture_job(repo):
+    """DefaultScheduler._process_store_jobs: candidates read and captured in one transaction;
+    _capture_scheduled_job -> db update_scheduled_job with query_filter {'captured_at': <the read value>}
+    (update_on_match), `updated_cnt == 1` is "captured"."""
+    ds = _parse(repo, SCHED_SRC)
+    api = _parse(repo, API_SRC)
+    fn = _func(ds, '_process_store_jobs', 'DefaultScheduler')
+    b = _body(fn)
+    if not b or not isinstance(b[0], ast.With) or _src(b[0].items[0].context_expr) != 'db_api.transaction()':
+        raise Refuse('_process_store_jobs: no transaction block')
+    tb = b[0].body
+    if not tb or not _src(tb[0]).startswith('candidate_jobs = db_api.get_scheduled_jobs_to_start('):
+        raise Refuse('_process_store_jobs: candidates are not read first')
+    rest = [_src(x) for x in tb[1:]]
+    if rest == ['captured_jobs = [job for job in candidate_jobs if self._capture_scheduled_job(job)]']:
+        pass
+    elif rest == ['now_sec = utils.utc_now_sec()', 'for job in candidate_jobs:\n    job.captured_at = now_sec',
+                  'captured_jobs = candidate_jobs']:
+        # every candidate is marked by an ORM assignment and counted as captured
+        return [('read',), ('retIf', ('notIn', ('obj', 0), [None])),
+                ('assign', 0, ('var', J_NOW), False), ('setFlag', 0, True)]
+    else:
+        raise Refuse('_process_store_jobs: capture of the candidates not understood: %r' % rest)
+    cap = _func(ds, '_capture_scheduled_job', 'DefaultScheduler')
+    cs = [_src(x) for x in _body(cap)]
+    want = ['now_sec = utils.utc_now_sec()',
+            "_, updated_cnt = db_api.update_scheduled_job(id=scheduled_job.id, values={'captured_at': now_sec}, "
+            "query_filter={'captured_at': scheduled_job.captured_at})",
+            'if updated_cnt == 1:\n    scheduled_job.captured_at = now_sec',
+            'return updated_cnt == 1']
+    if cs != want:
+        raise Refuse('_capture_scheduled_job changed: %r' % cs)
+    uf = _func(api, 'update_scheduled_job')
+    ub = _body(uf)
+    if len(ub) != 1 or not isinstance(ub[0], ast.If) or _src(ub[0].test) != 'query_filter' or \
+            len(ub[0].body) != 1 or not isinstance(ub[0].body[0], ast.Try):
+        raise Refuse('db update_scheduled_job: unexpected outline')
+    t = ub[0].body[0]
+    want = ['specimen = models.ScheduledJob(id=id, **query_filter)',
+            "job = b.model_query(models.ScheduledJob).update_on_match(specimen=specimen, surrogate_key='id', "
+            "values=values)",
+            'return (job, 1)']
+    if [_src(x) for x in t.body] != want or len(t.handlers) != 1 or \
+            _src(t.handlers[0].type) != 'oslo_sqlalchemy.update_match.NoRowsMatched' or \
+            _src(t.handlers[0].body[-1]) != 'return (None, 0)':
+        raise Refuse('db update_scheduled_job: filter branch changed')
+    # the candidate query: the row is a candidate when captured_at IS NULL (first capture) or is an expired
+    # stamp (captured_at <= now - captured_job_timeout: a time comparison, kept in Mistral.Sched / C13 at
+    # DB-call granularity, operators checked by translate/sched_defaults.py).  The script is the first capture.
+    q = _src(_func(api, 'get_scheduled_jobs_to_start'))
+    if 'sa.or_(captured_at_col == sa.null(), captured_at_col <= min_captured_at)' not in q or \
+            'captured_at_col = models.ScheduledJob.captured_at' not in q:
+        raise Refuse('get_scheduled_jobs_to_start: the captured_at filter changed')
+    return [('read',), ('retIf', ('notIn', ('obj', 0), [None])),
+            ('cas', 0, [(0, ('obj', 0))], [(0, ('var', J_NOW))])]
 
 
 # ------------------------------------------------------------------ entry points
@@ -841,6 +1061,8 @@ def scripts(repo):
     res['advanceLast'] = last
     res['advanceNext'] = nxt
     res['actionComplete'] = action_complete(repo)
+    res['taskComplete'] = task_complete(repo)
+    res['captureJob'] = capture_job(repo)
     res = {k: strip_nops(v) for k, v in res.items()}
     return res, w.tabs
 
@@ -864,6 +1086,12 @@ def generate(repo):
                        'db_api.delete_cron_trigger (look-up, DELETE, row count = won)',
         'advanceNext': 'periodic.advance_cron_trigger, other occurrences: db_api.update_cron_trigger with '
                        'query_filter (look-up, update_on_match, (obj, 1|0))',
+        'taskComplete': 'Task.complete(state, state_info) for a completed non-skipped state with Task.set_state inlined: '
+                        'is_completed guard, compare-and-swap on the state read, ORM assignments, completion check and '
+                        'dispatch of the next commands (winner only); RegularTask.on_action_complete ends in it (action '
+                        'results and child-workflow results alike)',
+        'captureJob': 'DefaultScheduler._process_store_jobs / _capture_scheduled_job: candidate read, update_on_match on '
+                      'the read captured_at',
         'actionComplete': 'DefaultEngine.on_action_complete -> action_handler.on_action_complete -> '
                           'RegularAction.complete: look-up, is_completed guard (raise), ORM assignments of state / '
                           'output / accepted, hand-off to the task; no lock, no compare-and-swap on the action row',
@@ -879,7 +1107,8 @@ def generate(repo):
         out.append('def validFrom%s : List Val := %s' % (tgt.capitalize(), lvals(valid_from(tabs, tgt))))
     out.append('')
     for name in ('succeedWorkflow', 'failWorkflow', 'cancelWorkflow', 'cacSucceedWorkflow',
-                 'cacFailWorkflow', 'cacCancelWorkflow', 'advanceLast', 'advanceNext', 'actionComplete'):
+                 'cacFailWorkflow', 'cacCancelWorkflow', 'advanceLast', 'advanceNext', 'actionComplete', 'taskComplete',
+                 'captureJob'):
         out.append(lscript(name, sc[name], docs[name]))
         out.append('')
     out.append('/-- the local decrement of advance_cron_trigger -/')
@@ -893,7 +1122,7 @@ def generate(repo):
     out.append('  | _ => none')
     out.append('end Mistral.Gen.RaceScripts')
     return {'files': {'RaceScripts': '\n'.join(out) + '\n'},
-            'sources': [WF_SRC, WFH_SRC, MOD_SRC, API_SRC, ST_SRC, PER_SRC, TRG_SRC, ACT_SRC, ACTH_SRC, ENG_SRC]}
+            'sources': [WF_SRC, WFH_SRC, MOD_SRC, API_SRC, ST_SRC, PER_SRC, TRG_SRC, ACT_SRC, ACTH_SRC, ENG_SRC, TASK_SRC, SCHED_SRC]}
 
 
 if __name__ == '__main__':
